@@ -45,10 +45,24 @@ def _make_dist(S, kind, M, bs):
     if kind == "cholesky":
         d = V.CholeskyVariationalDistribution(M, batch_shape=bsz)
         Ls, Lc = S.factor("vl", M, bs)
+        # the raw parameter is a FULL matrix: its strict upper triangle (arbitrary symbolic values, e.g. after an optimiser
+        # step or a load) must be ignored - the covariance encoded is tril(param) tril(param)^T
+        raw = Lc.clone()
+        Rs = Ls.copy()
+        up = S.randn(*bs, M, M, scale=0.5)
+        for idx in np.ndindex(*raw.shape):
+            if idx[-1] > idx[-2]:
+                raw[idx] = up[idx]
+                from symten import atom
+                nm = "vu" + "".join("_%d" % k for k in idx)
+                if nm in S.overrides:
+                    raw[idx] = S.overrides[nm]
+                S.witness[nm] = float(raw[idx])
+                Rs[idx] = atom(nm, float(raw[idx]))
         with torch.no_grad():
-            d.chol_variational_covar.copy_(Lc)
+            d.chol_variational_covar.copy_(raw)
             d.variational_mean.copy_(S.randn(*bs, M))
-        S.put(d.chol_variational_covar.data, Ls)
+        S.put(d.chol_variational_covar.data, Rs)
         Ms = S.sym_tensor(d.variational_mean, "vm")
         return d, Ms, Ls @ np.swapaxes(Ls, -1, -2)
     if kind == "meanfield":
@@ -217,6 +231,42 @@ def _logdet(S, dist, b, M, bs):
     raise KeyError(dist)
 
 
+def skipvar_history(S, M, n):
+    """unwhitened strategy, eval-mode fast path under skip_posterior_variances: predict, train(), new parameters, eval(), predict"""
+    N = M + n
+    Z, X = labels(0, M), labels(M, N)
+    Gs, Gc = S.factor("g", N)
+    d, Mq, Cq = _make_dist(S, "cholesky", M, ())
+    table = torch.zeros(N, N)
+    model = VGP(V.UnwhitenedVariationalStrategy, d, Z, table, make_mean("constant"))
+    declare_params(S, model.mean_module, "mean_")
+    model.variational_strategy.variational_params_initialized.fill_(1)
+    jit = float(gpytorch.settings.variational_cholesky_jitter.value(torch.float64))
+    J = Gs @ Gs.T
+    Kt = J - eye(N) * Sym.const(jit)
+    with torch.no_grad():
+        table.copy_(Gc @ Gc.T - jit * torch.eye(N))
+    S.put(table, Kt)
+    with S.mode():
+        model.eval()
+        with gpytorch.settings.skip_posterior_variances(True):
+            _ = model(X).mean
+        model.train()
+        # an optimiser step: the variational mean takes fresh symbolic values
+        delta = S.randn(M, scale=0.5)
+        Dl = S.sym_tensor(delta, "step")
+        with torch.no_grad():
+            d.variational_mean.add_(delta)
+        model.eval()
+        with gpytorch.settings.skip_posterior_variances(True):
+            mean_t = model(X).mean
+        mall = as_sym_arr(SH.get(model.mean_module(labels(0, N))))
+    Gz = Gs[:M, :M]
+    A = spd_solve(Gz, Kt[M:, :M].T)
+    Mref = mall[M:] + (A.T @ ((Mq + Dl) - mall[:M]).reshape(M, 1)).reshape(n)
+    S.prove_eq(mean_t, Mref, "mean under skip_posterior_variances after a train/step/eval cycle uses the CURRENT q(u)")
+
+
 def prior_case(S, strat, M, n):
     """q(u) = p(u)  =>  q(f) = prior and KL = 0"""
     N = M + n
@@ -345,6 +395,7 @@ def scenarios(tier, seed):
         add("strategy", strat="variational", dist="meanfield", M=1, n=2, batch=0, training=True)
         add("prior_case", strat="variational", M=2, n=2)
         add("prior_case", strat="unwhitened", M=2, n=2)
+        add("skipvar_history", M=2, n=2)
         add("multitask", kind="independent", M=2, n=2, T=2, Q=0)
         add("multitask", kind="lmc", M=2, n=2, T=2, Q=2)
     else:
@@ -363,6 +414,8 @@ def scenarios(tier, seed):
                 add("strategy", strat=strat, dist=dist, M=2, n=1, batch=2, training=False, what="both" if strat == "variational" else "qf")
             add("prior_case", strat=strat, M=2, n=2)
             add("prior_case", strat=strat, M=3, n=1)
+        add("skipvar_history", M=2, n=2)
+        add("skipvar_history", M=3, n=1)
         add("multitask", kind="independent", M=2, n=2, T=2, Q=0)
         add("multitask", kind="independent", M=2, n=1, T=3, Q=0)
         add("multitask", kind="lmc", M=2, n=2, T=2, Q=2)
